@@ -309,7 +309,7 @@ def check_query_like(chk, M, spec, clsname, body_fn, extra_vars=()):
                 if 'timestamp' in present and v < 3:
                     chk.note('timestamp flag on v%d is outside the specification; the session layer only sets it on v3+ (C46)' % v)
                     present.discard('timestamp')
-                    fields = [f for f in fields if QP_ROLES.get(f[1]) != 'timestamp']
+                    fields = [f for f in fields if not (isinstance(f[1], str) and QP_ROLES.get(f[1]) == 'timestamp')]
                 want = body_fn(v, present)
                 if v == 1 and clsname == 'QueryMessage':
                     # the v1 specification's QUERY body is <query><consistency>; anything after it is one finding
